@@ -116,4 +116,25 @@ CHECKS = {
         "level_text": "Seeded exploration of schedules at lock granularity for pairs/triples of API calls; the all-blocked state of the lock model is the oracle, each deadlock is re-run with acquisition sites and reduced to the operations in flight.",
         "level_note": "trusted base: the lock model (parking_lot raw_rwlock.rs rules), the shim; schedules sampled",
     },
+    "C05": {
+        "level": "exploration",
+        "design_ref": "DESIGN.md section 5/C05",
+        "engine": "E2 simsched",
+        "technique": "deterministic simulation: seeded lock-granularity schedules of 2-3 client threads; recorded invoke/return history checked per document against a sequential register with a WGL-style linearizability search",
+        "rule": "programs = 2-3 threads x 2-4 operations {insert/overwrite with a globally unique (vector, metadata) pair, delete, query, bulk_query, get_document_with_metadata, "
+                "get_embedding_cache_aware, exists} on 1-2 shared ids after a 0-3 operation warm-up, against one TieredEngine (cache capacity 1-8, hot hard limit 1-200 so drains interleave, "
+                "all cache strategies, with and without persistence); 16 seeded schedules per program (random walk, sticky walk, PCT d<=3, bounded preemption); half of the programs end "
+                "with a forced drain, all end with quiescent reads of every id through every flavour. evaluations = histories checked. distinct_nontrivial = distinct decision-trace "
+                "hashes among histories in which operations of different threads overlapped in time.",
+        "assumptions": [
+            "invoke/return stamps are the scheduler's global step, taken so that recorded intervals contain the real ones (never tighter)",
+            "a write that returned an error may or may not have taken effect; delete's boolean result is not judged (the property speaks about reads)",
+            "runs that end in a deadlock are attributed to C08 and dropped here (counted as aborted_by_deadlock_or_cap)",
+            "the server's Query/BulkQuery handlers are not driven here",
+        ],
+        "expected_probes": ["histories_with_overlapping_operations"],
+        "tiers": {"quick": {"runs_per_worker": 1000000, "budget_s": 45}, "thorough": {"runs_per_worker": 10000000, "budget_s": 900}},
+        "level_text": "Seeded exploration of schedules; every recorded history is decided exactly by a linearizability search per document, plus direct clauses for never-written vectors and vector/metadata pairs from different writes.",
+        "level_note": "trusted base: lock model + shim, the history recorder, the register model; schedules sampled",
+    },
 }
